@@ -40,7 +40,7 @@ def make_replay(prop, result, fo, seed):
                 if rp.get("reproduced"):
                     rec["failing_input"] = fo.get("inputs")
                     found = True
-            if not found and prop in ("C06", "C07"):
+            if not found and prop in ("C06", "C07", "C08"):
                 # no (reproducible) verifier counterexample: directed search over C API histories on the real library
                 import search_c
                 hit = search_c.find(prop, fo, seed)
